@@ -19,8 +19,10 @@ var Registry = map[string]func(*core.Ctx){
 	"C13":   RunC13,
 	"C14":   RunC14,
 	"C15":   RunC15,
+	"C16":   RunC16,
 	"C17":   RunC17,
 	"C18":   RunC18,
+	"C19":   RunC19,
 	"C20":   RunC20,
 	"SMOKE": RunSmoke,
 }
@@ -41,4 +43,5 @@ func RegisterOnly(c *core.Ctx) {
 	registerStoreKinds(c)
 	registerFsimKinds(c)
 	registerHandoverKinds(c)
+	registerSvcKinds(c)
 }
